@@ -172,3 +172,120 @@ def region_points(node: ast.AST, env: Dict[str, Any] = None, extra=()):
     for c in consts:
         pts |= {c - 1, c, c + 1}
     return sorted(pts)
+
+
+class PureEval:
+    """
+    Evaluator for the package's small pure scalar functions (if / return / simple assignment, calls to other such functions
+    and to a whitelist of library functions).  Used on one witness per cell of the finite partition a key / threshold function
+    induces on its input, never on program data.
+    """
+
+    def __init__(self, resolve, extra=None):
+        self.resolve = resolve  # name -> FunctionDef node of a package function, or None
+        import math
+        self.lib = {"isnan": math.isnan, "isinf": math.isinf, "copysign": math.copysign, "str": str, "repr": repr, "type": type, "tuple": tuple,
+                    "frozenset": frozenset, "map": lambda f, xs: tuple(f(x) for x in xs), "isinstance": isinstance, "float": float, "int": int,
+                    "bool": bool, "complex": complex, "bytes": bytes, "len": len, "abs": abs, "any": any, "all": all, "hash": hash}
+        self.lib.update(extra or {})
+        self.depth = 0
+
+    def call(self, fn_node, *args):
+        self.depth += 1
+        if self.depth > 40:
+            raise FevalError("recursion too deep")
+        try:
+            a = fn_node.args
+            env = {x.arg: v for x, v in zip(a.posonlyargs + a.args, args)}
+            r = self._run(fn_node.body, env)
+            if r is _NORET:
+                return None
+            return r
+        finally:
+            self.depth -= 1
+
+    def _run(self, stmts, env):
+        for st in stmts:
+            if isinstance(st, ast.Expr) and isinstance(st.value, ast.Constant):
+                continue
+            if isinstance(st, ast.Return):
+                return self.ev(st.value, env) if st.value is not None else None
+            if isinstance(st, ast.If):
+                r = self._run(st.body if self.ev(st.test, env) else st.orelse, env)
+                if r is not _NORET:
+                    return r
+                continue
+            if isinstance(st, ast.Assign) and len(st.targets) == 1 and isinstance(st.targets[0], ast.Name):
+                env[st.targets[0].id] = self.ev(st.value, env)
+                continue
+            if isinstance(st, ast.Raise):
+                raise FevalError("raises")
+            if isinstance(st, (ast.Import, ast.ImportFrom, ast.Pass)):
+                continue
+            raise FevalError(f"statement {type(st).__name__} in a pure function")
+        return _NORET
+
+    def ev(self, node, env):
+        if isinstance(node, ast.Call):
+            fn = node.func
+            args = None
+            if isinstance(fn, ast.Name):
+                args = [self.ev(a, env) for a in node.args]
+                target = self.resolve(fn.id)
+                if target is not None:
+                    return self.call(target, *args)
+                if fn.id in self.lib:
+                    # callables passed as values (map(key, xs)) resolve lazily
+                    return self.lib[fn.id](*args)
+            if isinstance(fn, ast.Attribute) and fn.attr in ("real", "imag"):
+                pass
+        if isinstance(node, ast.Name):
+            if node.id in env:
+                return env[node.id]
+            target = self.resolve(node.id)
+            if target is not None:
+                return lambda *a: self.call(target, *a)
+            if node.id in self.lib:
+                return self.lib[node.id]
+            if node.id in ("True", "False", "None"):
+                return {"True": True, "False": False, "None": None}[node.id]
+            raise FevalError(f"free name {node.id}")
+        if isinstance(node, ast.Attribute):
+            base = self.ev(node.value, env)
+            if node.attr in ("real", "imag") and isinstance(base, (complex, float, int)):
+                return getattr(base, node.attr)
+            raise FevalError(f"attribute {node.attr}")
+        if isinstance(node, ast.Constant):
+            return node.value
+        if isinstance(node, ast.Tuple):
+            return tuple(self.ev(e, env) for e in node.elts)
+        if isinstance(node, ast.Compare):
+            left = self.ev(node.left, env)
+            for o, c in zip(node.ops, node.comparators):
+                right = self.ev(c, env)
+                if not _CMP[type(o)](left, right):
+                    return False
+                left = right
+            return True
+        if isinstance(node, ast.BoolOp):
+            v = None
+            for x in node.values:
+                v = self.ev(x, env)
+                if (isinstance(node.op, ast.And) and not v) or (isinstance(node.op, ast.Or) and v):
+                    return v
+            return v
+        if isinstance(node, ast.UnaryOp):
+            v = self.ev(node.operand, env)
+            return (not v) if isinstance(node.op, ast.Not) else (-v if isinstance(node.op, ast.USub) else v)
+        if isinstance(node, ast.BinOp):
+            return _BIN[type(node.op)](self.ev(node.left, env), self.ev(node.right, env))
+        if isinstance(node, ast.IfExp):
+            return self.ev(node.body, env) if self.ev(node.test, env) else self.ev(node.orelse, env)
+        if isinstance(node, ast.Call):
+            f = self.ev(node.func, env)
+            if callable(f):
+                return f(*[self.ev(a, env) for a in node.args])
+        raise FevalError(f"unsupported {type(node).__name__} in a pure function")
+
+
+_NORET = object()
